@@ -255,7 +255,9 @@ def all_cfgs(actives):
 
 
 # ------------------------------------------------------------------------------ execution on the real machine
-_H = {}
+class Inapplicable(Exception):
+    """The schedule (generated from the model) asks for a lifecycle step the real machine is not in a position to
+    take: the execution has left the model before; the trace ends here and its prefix is judged."""
 
 
 class Run:
@@ -346,6 +348,14 @@ class Run:
         m = self.m
         rec = {'op': op}
         spins = 12
+        tilt = m.modes['tilt']
+        ok = {'start': lambda: not m.game and not m.service.is_in_service(), 'relstart': lambda: self.held_start is not None,
+              'relend': lambda: self.held_end is not None,
+              'drain': lambda: bool(m.game) and m.game.balls_in_play > 0, 'endgame': lambda: bool(m.game) and m.game.balls_in_play > 0,
+              'tiltdrain': lambda: bool(m.game) and m.game.tilted and tilt._balls_to_collect > 0,
+              'service': lambda: not m.service.is_in_service(), 'svcexit': m.service.is_in_service}.get(op)
+        if ok is not None and not ok():
+            raise Inapplicable(op)
         if op in ('enable', 'disable', 'flip', 'release'):
             rec['d'] = a['d']
             self.request(op, a['d'])
@@ -408,10 +418,12 @@ class Run:
         self.observe(rec)
 
     def run(self):
-        for a in self.sched:
-            if a['op'] == 'init':
-                continue
-            self.step(a)
+        try:
+            for a in self.sched:
+                if a['op'] != 'init':
+                    self.step(a)
+        except Inapplicable:
+            self.truncated = True
         for _ in range(REENABLE + 2):
             self.step({'op': 'adv'})
         return self.ev
@@ -423,7 +435,7 @@ def exec_schedule(job):
     try:
         r = Run(mdir, cfg, sched, via, seed)
         ev = r.run()
-        out = {'cfg': cfg, 'ev': ev, '_via': via}
+        out = {'cfg': cfg, 'ev': ev, '_via': via, '_truncated': getattr(r, 'truncated', False)}
     except BaseException as ex:  # pylint: disable=broad-except
         import traceback
         ev = (r.ev if r else []) + [{'op': 'crash', 'what': repr(ex)[:300]}]
@@ -524,7 +536,7 @@ def run(ctx):
         f.write(mc_module(IDS, all_cfgs(ACTIVE_SETS), name='HwRulesGen'))
     with open(wd + '/Gen.cfg', 'w') as f:
         f.write(tlc_cfg('Spec', 40, 30, 2, invs=''))
-    behs, _ = tlc.simulate(wd, 'HwRulesGen', 'Gen.cfg', num=300 if ctx.quick else 3000, depth=36 if ctx.quick else 50, seed=ctx.seed)
+    behs, _ = tlc.simulate(wd, 'HwRulesGen', 'Gen.cfg', num=260 if ctx.quick else 3000, depth=36 if ctx.quick else 50, seed=ctx.seed)
     rnd = random.Random(ctx.seed)
     jobs = []
     for b in behs:
@@ -535,7 +547,8 @@ def run(ctx):
         for via in ('event', 'direct'):
             jobs.append((mdir, cfg, sched, via, 1))
     traces = harness.pmap(exec_schedule, jobs, nproc=8, chunk=4, item_timeout=120)
-    ctx.log('schedules executed: %d (%d steps)' % (len(traces), sum(len(t['ev']) for t in traces)))
+    ctx.log('schedules executed: %d (%d steps, %d cut short after leaving the model)' % (
+        len(traces), sum(len(t['ev']) for t in traces), sum(1 for t in traces if t.get('_truncated'))))
     # 3. validation against the model without deviations
     with open(wd + '/HwRulesTraceMC.tla', 'w') as f:
         f.write(mc_module(IDS, [], name='HwRulesTraceMC').replace('EXTENDS HwRules\n', 'EXTENDS HwRulesTrace\n'))
